@@ -28,10 +28,8 @@
      * CRC32C and the SSE2 / SHA-NI / ARM transforms belong to other areas (C01-crc, C03).
    This file contains only statements, each closed by [exact], with Print Assumptions. *)
 From Coq Require Import NArith List.
-From LCP Require Import Base.CheckedMem Gen.Repo_hash Alg.Words Alg.MDSpec Alg.Sha256Spec Alg.Sha1Spec
-     Alg.Md5Spec Alg.HashSpecs Alg.Sha256Model Alg.MD32Model Alg.HashRepo
-     Alg.Sha256Proofs Alg.MD32Proofs Alg.Sha1Proofs Alg.Md5Proofs Alg.HashRepoProofs
-     Alg.HashExamples.   (* test vectors and non-vacuity instances, compiled with this file *)
+From LCP Require Import Base.CheckedMem Gen.Repo_hash Alg.Words Alg.MDSpec Alg.Sha256Spec Alg.Sha1Spec Alg.Md5Spec Alg.HashSpecs Alg.Sha256Model Alg.MD32Model Alg.HashRepo Alg.Sha256Proofs Alg.MD32Proofs Alg.Sha1Proofs Alg.Md5Proofs Alg.HashRepoProofs Alg.HashExamples.
+(* HashExamples: test vectors and non-vacuity instances, compiled with this file *)
 Import ListNotations.
 Local Open Scope N_scope.
 
